@@ -144,8 +144,8 @@ def cfg_coord(tier, seed):
         masks = list(range(1, 2 ** n))
         if len(masks) > (24 if tier == 'quick' else 511):
             masks = rng.sample(masks, 24 if tier == 'quick' else 511)
-        for bits in masks:
-            out.append({'shape': list(shp), 'bits': bits})
+        for k, bits in enumerate(masks):
+            out.append({'shape': list(shp), 'bits': bits, 'weights': 'symbolic' if k % 2 else 'concrete'})
     return out, len(out), False
 
 
@@ -154,9 +154,15 @@ def run_coord(W, cfg):
     shp = tuple(cfg['shape'])
     cells = [(r, c) for r in range(shp[0]) for c in range(shp[1])]
     sup = [cells[k] for k in range(len(cells)) if cfg['bits'] >> k & 1]
-    vals = W.zeros(shp)
-    for (r, c) in sup:
-        vals[r, c] = W.real(f'mk_{r}_{c}', nz=True)
+    if cfg.get('weights') == 'concrete':
+        # asymmetric concrete mask values (an apodised / grey-level mask): only the support may matter
+        vals = rnp.zeros(shp)
+        for (r, c) in sup:
+            vals[r, c] = 0.25 + ((3 * r + 5 * c) % 7) / 2.0
+    else:
+        vals = W.zeros(shp)
+        for (r, c) in sup:
+            vals[r, c] = W.real(f'mk_{r}_{c}', nz=True)
     rho, theta = lt.zernike_coordinates(vals)
     # centroid of the support (every supported sample counts once: the mask enters only through its support)
     cr = Fraction(sum(r for r, c in sup), len(sup))
